@@ -10,6 +10,9 @@ pub mod bfs;
 pub mod p_factory;
 pub mod p_cc14;
 pub mod p_nrpn;
+pub mod pollobs;
+#[cfg(feature = "hm_std")]
+pub mod p_polling;
 
 use engine::{CheckResult, Ctx, Report};
 use serde_json::Value;
@@ -27,6 +30,10 @@ pub fn run_property(ctx: &Ctx) -> Option<Report> {
         "C09" => Some(p_nrpn::run_c09(ctx)),
         "C10" => Some(p_nrpn::run_c10(ctx)),
         "C11" => Some(p_nrpn::run_c11(ctx)),
+        #[cfg(feature = "hm_std")]
+        "C13" => Some(p_polling::run_c13(ctx)),
+        #[cfg(feature = "hm_std")]
+        "C14" => Some(p_polling::run_c14(ctx)),
         _ => None,
     }
 }
@@ -44,6 +51,8 @@ pub fn replay_case(prop: &str, sub: &str, case: &Value) -> Option<CheckResult> {
         "C09" => p_nrpn::replay_c09(sub, case),
         "C10" => p_nrpn::replay_c10(sub, case),
         "C11" => p_nrpn::replay_c11(sub, case),
+        #[cfg(feature = "hm_std")]
+        "C13" | "C14" => p_polling::replay_polling(prop, sub, case),
         _ => None,
     }
 }
